@@ -90,6 +90,11 @@ def hook(state, opname, callno=0):
                 h.fired = True
                 raise KeyboardInterrupt
             h.count += 1
+        elif h.spec[0] == "any":
+            # every chain is interrupted when it reaches (x, opname, callno): all workers stop
+            if h.spec[1:] == (x, opname, callno):
+                h.fired = True
+                raise KeyboardInterrupt
         elif h.spec[1:] == (cid, x, opname, callno):
             h.fired = True
             raise KeyboardInterrupt
